@@ -568,3 +568,55 @@ def canary_methods_work_on_a_copy_of_self(a):
     o = _Base(a)
     o.bump()
     return o.x == a
+
+
+# --- loops over lists of symbolic length: early exit, accumulation ------------------------------------------------------------
+@lemma(dict(xs=INTS), prop=["ENGINE"])
+def a_search_loop_returns_the_first_match(xs):
+    def first_positive(values):
+        for i, x in enumerate(values):
+            if x > 0:
+                return i
+        return None
+    r = first_positive(xs)
+    if r is None:
+        return all(x <= 0 for x in xs)
+    return xs[r] > 0 and all(xs[j] <= 0 for j in range(r))
+
+
+@lemma(dict(xs=INTS), prop=["ENGINE"], canary=True)
+def canary_a_search_loop_returns_the_last_match(xs):
+    def first_positive(values):
+        for i, x in enumerate(values):
+            if x > 0:
+                return i
+        return None
+    r = first_positive(xs)
+    if r is None:
+        return True
+    return all(xs[j] <= 0 for j in range(r + 1, len(xs)))
+
+
+@lemma(dict(xs=INTS), prop=["ENGINE"])
+def a_mapping_loop_keeps_length_and_order(xs):
+    out = []
+    for x in xs:
+        if x > 0:
+            out.append(x + 1)
+        else:
+            out.append(0)
+    return len(out) == len(xs) and all((out[i] == xs[i] + 1) if xs[i] > 0 else (out[i] == 0) for i in range(len(xs)))
+
+
+@lemma(dict(xs=INTS), prop=["ENGINE"])
+def a_raising_loop_raises_iff_some_element_is_bad(xs):
+    def check(values):
+        for x in values:
+            if x < 0:
+                raise ValueError("negative")
+        return True
+    try:
+        check(xs)
+    except ValueError:
+        return any(x < 0 for x in xs)
+    return all(x >= 0 for x in xs)
